@@ -23,8 +23,10 @@ RULE = ('schedules: random API-built designs x seeded worklist tie-breaks (hook 
         'real sanity_check_net and the raise it hits (by source line) compared with Gen/SanityNet.check; every '
         'API-built design is checked against the hypotheses of the completeness theorem')
 IMPORTS = 'From PyRTL Require Import Netlist.Iter Netlist.Sanity Netlist.MemSync.'
+IMPORTS_BLOCK = 'From PyRTL Require Import Netlist.Sanity Netlist.SanityBlockGen.'
 IMPORTS_GEN = 'From PyRTL Require Import Netlist.Iter Netlist.Sanity Netlist.MemSync Gen.SanityNet.'
-COQ_TARGETS = ['theories/Netlist/Sanity.vo', 'theories/Netlist/MemSync.vo', 'theories/Gen/SanityNet.vo']
+COQ_TARGETS = ['theories/Netlist/Sanity.vo', 'theories/Netlist/MemSync.vo', 'theories/Gen/SanityNet.vo',
+               'theories/Netlist/SanityBlockGen.vo']
 ASSUMPTIONS = ['faults that the deep embedding cannot represent (op_param of wrong Python type, memid '
                'mismatch) are checked against the implementation only; the corresponding guards of sanity_check_net '
                '(raises 1-3, 8, 19-21, 23-28, 38) are translated but proved never to fire on an embedded net, so '
@@ -140,6 +142,28 @@ def real_memsync(block):
         return 8
     except Exception:
         return 9
+
+
+CONNECTIVITY_MSGS = ['Unknown wires found in net', 'Wires declared but not connected', 'Wires used but never driven']
+
+
+def real_connectivity(block):
+    """which of the three connectivity checks of sanity_check fires (1..3), 0 if sanity_check gets past them
+    (returns, or raises something later), None if it raises earlier (net-level checks, names, drivers)"""
+    try:
+        with deadline(), contextlib.redirect_stdout(io.StringIO()):
+            block.sanity_check()
+        return 0
+    except pyrtl.PyrtlError as e:
+        msg = str(e)
+        for k, m in enumerate(CONNECTIVITY_MSGS):
+            if msg.startswith(m):
+                return k + 1
+        if msg.startswith('memory "') or 'wirevector_by_name' in msg:
+            return 0
+        return None
+    except (Exception, Hang):
+        return None
 
 
 def sync_ids(block):
@@ -531,6 +555,7 @@ def run(ctx):
     sites_per_fault = 2 if ctx.tier == 'quick' else 5
     exprs = []
     meta = []
+    block_exprs, block_meta = [], []
     gen_ok, line2ord = gen_guards(ctx)
     if not wire_classes_disjoint():
         ctx.model_mismatch('Input/Output/Const/Register are no longer pairwise unrelated WireVector subclasses: '
@@ -652,6 +677,11 @@ def run(ctx):
                         else:
                             exprs.append('(sanity_case %s [], (@nil Z))' % dump.coq())
                             meta.append(('sanity', i, fault, ok, rep, None, None))
+                        if fault not in ORDINAL_TIE_SKIP and fault != 'foreign_wire':
+                            rc = real_connectivity(block)
+                            if rc is not None:
+                                block_exprs.append('block_guard_case %s' % dump.coq())
+                                block_meta.append((i, fault, rc, rep))
                         if fault in MEMSYNC_TIE_FAULTS and sync_ids(block):
                             exprs.append('memsync_case %s %s' % (dump.coq(), nlx.zlist(sync_ids(block))))
                             meta.append(('memsync', i, fault, real_memsync(block), rep))
@@ -665,6 +695,20 @@ Definition order_case (nl : netlist) (idx : list Z) : list Z :=
     if gen_ok:
         imports = imports.replace(IMPORTS, IMPORTS_GEN)
     results = ctx.coq_eval(exprs, imports, tag='c10', shard=80, jobs=12)
+    # (f) the regenerated connectivity checks of sanity_check (Gen/SanityBlock.v) vs the check the real one raises
+    try:
+        bres = ctx.coq_eval(block_exprs, IMPORTS_BLOCK, tag='c10blk', shard=120, jobs=12)
+    except Exception as e:
+        bres = None
+        ctx.model_mismatch('Gen/SanityBlock.v / Netlist/SanityBlockGen.v could not be evaluated: %s' % str(e)[-400:], {})
+    for (i, fault, rc, rep), r in zip(block_meta, bres or []):
+        first = next((k + 1 for k, e in enumerate(r) if e == 0), 0)
+        ctx.count('connectivity_guard_hit', '%d' % rc)
+        if first != rc:
+            ctx.model_mismatch('the regenerated connectivity checks (Gen/SanityBlock.block_guards) and the real sanity_check '
+                               'disagree: real raises check %d, generated first non-empty set %d (emptiness %s); '
+                               '1 unknown wires, 2 declared but not connected, 3 used but never driven, 0 none'
+                               % (rc, first, r), dict(rep, fault=fault))
     for m, r in zip(meta, results):
         if m[0] == 'order':
             _, i, s, real_idx, nn = m
